@@ -298,6 +298,9 @@ class Completion:
                     # generalize this. None happens if the cursor is within
                     # the whitespace after the dot.
                     dot = leaf.get_previous_leaf()
+                elif dot.start_pos >= self._position:
+                    # The leaf that starts at the cursor, the dot is before it.
+                    dot = dot.get_previous_leaf()
                 cached_name, n = self._complete_trailer(dot.get_previous_leaf())
                 completion_names += n
             elif self._is_parameter_completion():
